@@ -66,6 +66,12 @@ OpWrite(st, items) ==
     IN [st EXCEPT !.seq = s + 1, !.vis = MaxNat(@, s + 1),
                   !.mem = [@ EXCEPT ![a] = @ \cup es]]
 
+\* the same with a seqno the caller allocated earlier (the counter has moved on meanwhile)
+OpWriteAt(st, items, s) ==
+    LET es == {[k |-> i.k, s |-> s, t |-> i.t, v |-> i.v] : i \in items}
+        a  == Latest(st).act
+    IN [st EXCEPT !.vis = MaxNat(@, s + 1), !.mem = [@ EXCEPT ![a] = @ \cup es]]
+
 \* Tree::rotate_memtable
 OpRotate(st) ==
     LET sv == Latest(st) IN
